@@ -84,6 +84,10 @@ def arOpToks (base : Nat) : List String → List String
   | [] => []
 
 def arNormLine (base : Nat) (op impl : List String) : String :=
+  -- responses to several deferred resets completing at once leave in Go map order: packets compared as a multiset
+  let impl := match op, impl with
+    | ["gather"], ok :: pks => ok :: (pks.toArray.qsort (· < ·)).toList
+    | _, _ => impl
   let op' := match op with
     | "new" :: rcv :: il :: _tsn :: rest => "new" :: rcv :: il :: rest.dropLast
     | _ => arOpToks base op
